@@ -2,8 +2,8 @@
 # Run tools/seedtest.py against a scratch fork (copy of /verif + clone of /repo) so that seeded patches are never applied
 # to /repo while other runs use it. Results (seeded/*/meta.json) are copied back.   usage: tools/seedfork.sh [id-prefix ...]
 set -e
-SV=/var/tmp/t2n-seedfork/verif; SR=/var/tmp/t2n-seedfork/repo
-mkdir -p /var/tmp/t2n-seedfork
+F=${SEEDFORK:-/var/tmp/t2n-seedfork}; SV=$F/verif; SR=$F/repo
+mkdir -p $F
 rsync -a --delete --exclude .git /verif/ $SV/
 rm -rf $SR; git clone -q /repo $SR
 sed -i "s#path = \"/repo\"#path = \"$SR\"#" $SV/harness/Cargo.toml
